@@ -26,7 +26,8 @@ VObj(r)     == [t |-> "obj", r |-> r]
 VFn(r)      == [t |-> "fn", r |-> r]
 VNat(name)  == [t |-> "nat", name |-> name]
 VAnyBool    == [t |-> "anybool"]                  \* a boolean whose value the documentation does not fix
-VApprox(n, u) == [t |-> "approx", n |-> n, ulps |-> u]  \* a number known only to the accuracy of the platform's math library
+VApprox(n, u, src) == [t |-> "approx", n |-> n, ulps |-> u, src |-> src]  \* a number known only to the accuracy of the platform's
+                                                                           \* math library; src = the operation and arguments that produced it
 N(i)        == VNum(FromInt(i))
 D(s)        == VNum(Dec(s))
 S(s)        == VStr(StrCps(s))
@@ -80,19 +81,32 @@ LooksNumeric(s) == /\ Len(s) >= 1
 MaybeNumeric(s) == LET t == IF Len(s) >= 1 /\ s[1] \in {43, 45} THEN Tail(s) ELSE s IN
                    Len(t) >= 1 /\ (IsDigitCp(t[1]) \/ t[1] \in {46, 105, 73, 110, 78})
 
+(* A string with the syntax of a numeric literal (either digit script) used where a number is needed is a TWO-VALUED cell:
+   the documentation does not say whether it is coerced (with the transliteration of C10) or a type error.  The
+   specification continues with the coerced number and marks the result SOFT; the replay accepts either continuation
+   (and C16 demands the same choice for every producer of the string).  Other strings that float parsing might accept
+   ("-0", "1e5", "inf") stay unspecified. *)
+Soft(res) == res @@ [soft |-> TRUE]
+IsSoft(res) == "soft" \in DOMAIN res
+StrNum(s) == ParseLit([i \in 1..Len(s) |-> IF s[i] \in 2534..2543 THEN s[i] - 2534 + 48 ELSE s[i]])
 (* operand of an arithmetic / comparison / bitwise operator or numeric built-in *)
 NumOperand(v) == CASE v.t = "num" -> Val(v.n)
                    [] v.t = "approx" -> Unspec("inexact-operand")
                    [] v.t = "anybool" -> Unspec("anybool-operand")
-                   [] v.t = "str" -> (IF LooksNumeric(v.s) \/ MaybeNumeric(v.s) THEN Unspec("numeric-string") ELSE Err("operand"))
+                   [] v.t = "str" -> (IF LooksNumeric(v.s) THEN (IF StrNum(v.s) = "OVERFLOW" THEN Unspec("numeric-string") ELSE Soft(Val(StrNum(v.s))))
+                                      ELSE IF MaybeNumeric(v.s) THEN Unspec("numeric-string") ELSE Err("operand"))
                    [] OTHER -> Err("operand")
+Carry(res, a, b) == IF res.r # "unspec" /\ (IsSoft(a) \/ IsSoft(b)) THEN Soft(res) ELSE res
 
 (* ---- equality ---- *)
-Eq(a, b) == IF Vague(a) \/ Vague(b) THEN Unspec("vague-equality")
+Eq(a, b) == IF a.t = "approx" /\ a = b THEN Val(VBool(~IsNaN(a.n)))  \* the same inexact operation on the same arguments gives the same number (NaN # NaN)
+            ELSE IF Vague(a) \/ Vague(b) THEN Unspec("vague-equality")
             ELSE IF a.t # b.t THEN Val(VBool(FALSE))
             ELSE CASE a.t = "nil" -> Val(VBool(TRUE))
                    [] a.t = "bool" -> Val(VBool(a.b = b.b))
-                   [] a.t = "num" -> Val(VBool(FEq(a.n, b.n)))
+                   [] a.t = "num" -> (IF IsWideInt(a.n) # IsWideInt(b.n) /\ FLe(a.n, b.n) /\ FLe(b.n, a.n)
+                                      THEN Val(VAnyBool)   \* an int64 no double holds, against the double it rounds to: "numeric value" read exactly or as doubles
+                                      ELSE Val(VBool(FEq(a.n, b.n))))
                    [] a.t = "str" -> Val(VBool(a.s = b.s))
                    [] a.t = "nat" -> Val(VBool(a.name = b.name))
                    [] OTHER -> (IF a.r = b.r THEN Val(VBool(TRUE)) ELSE Val(VAnyBool))   \* two distinct references: identity or structure
@@ -113,7 +127,7 @@ Arith(op, x, y) ==
     [] op = "/" -> (IF IsZero(y) THEN Err("zero") ELSE Val(VNum(FDiv(x, y))))
     [] op = "%" -> (IF IsZero(y) THEN Err("zero") ELSE Val(VNum(FMod(x, y))))
     [] op = "**" -> (IF PowExact(x, y) THEN Val(VNum(FPow(x, y)))
-                     ELSE IF PowModerate(x, y) THEN Val(VApprox(FPow(x, y), 64)) ELSE Val(VApprox(FPow(x, y), -1)))
+                     ELSE IF PowModerate(x, y) THEN Val(VApprox(FPow(x, y), 64, <<"pow", x, y>>)) ELSE Val(VApprox(FPow(x, y), -1, <<"pow", x, y>>)))
     [] op = "<" -> Val(VBool(FLt(x, y)))
     [] op = "<=" -> Val(VBool(FLe(x, y)))
     [] op = ">" -> Val(VBool(FLt(y, x)))
@@ -141,29 +155,29 @@ BinOp(op, a, b) ==
        \* a definite type error on either side wins over an unspecified cell on the other (left operand first)
        IF x.r = "err" THEN x ELSE IF y.r = "err" THEN y
        ELSE IF x.r # "val" THEN x ELSE IF y.r # "val" THEN y
-       ELSE IF op \in {"&", "|", "^", "<<", ">>"} THEN Bitwise(op, x.v, y.v) ELSE Arith(op, x.v, y.v)
+       ELSE Carry(IF op \in {"&", "|", "^", "<<", ">>"} THEN Bitwise(op, x.v, y.v) ELSE Arith(op, x.v, y.v), x, y)
 
 UnOp(op, a) ==
   IF op = "!" THEN (IF Vague(a) THEN Unspec("vague-operand") ELSE Val(VBool(~Truthy(a))))
   ELSE LET x == NumOperand(a) IN
        IF x.r # "val" THEN x
-       ELSE IF op = "-" THEN Val(VNum(FNeg(x.v)))
-       ELSE (IF HasI64(x.v) THEN Val(VNum(BNot(x.v))) ELSE Err("operand"))       \* "~"
+       ELSE Carry(IF op = "-" THEN Val(VNum(FNeg(x.v)))
+                  ELSE (IF HasI64(x.v) THEN Val(VNum(BNot(x.v))) ELSE Err("operand")), x, x)       \* "~"
 
 (* ---- pure built-ins on numbers (argument list already evaluated) ---- *)
 Num1(f(_), args) == IF Len(args) # 1 THEN Err("arity")
-                    ELSE LET x == NumOperand(args[1]) IN IF x.r = "err" THEN Err("native") ELSE IF x.r # "val" THEN x ELSE f(x.v)
-RECURSIVE MinMaxFold(_, _, _)
-MinMaxFold(isMin, acc, vs) ==
-   IF vs = <<>> THEN Val(VNum(acc))
+                    ELSE LET x == NumOperand(args[1]) IN IF x.r = "err" THEN Err("native") ELSE IF x.r # "val" THEN x ELSE Carry(f(x.v), x, x)
+RECURSIVE MinMaxFold(_, _, _, _)
+MinMaxFold(isMin, acc, vs, soft) ==
+   IF vs = <<>> THEN (IF soft THEN Soft(Val(VNum(acc))) ELSE Val(VNum(acc)))
    ELSE LET x == NumOperand(vs[1]) IN
-        IF x.r = "err" THEN Err("native") ELSE IF x.r # "val" THEN x
+        IF x.r = "err" THEN (IF soft THEN Soft(Err("native")) ELSE Err("native")) ELSE IF x.r # "val" THEN x
         ELSE IF IsNaN(x.v) \/ IsNaN(acc) THEN Unspec("nan-in-minmax")
-        ELSE MinMaxFold(isMin, IF (isMin /\ FLt(x.v, acc)) \/ (~isMin /\ FLt(acc, x.v)) THEN x.v ELSE acc, Tail(vs))
+        ELSE MinMaxFold(isMin, IF (isMin /\ FLt(x.v, acc)) \/ (~isMin /\ FLt(acc, x.v)) THEN x.v ELSE acc, Tail(vs), soft \/ IsSoft(x))
 MinMax(isMin, vs) == \* vs: the numbers to compare (already flattened)
    IF vs = <<>> THEN Err("native")
    ELSE LET x == NumOperand(vs[1]) IN
-        IF x.r = "err" THEN Err("native") ELSE IF x.r # "val" THEN x ELSE MinMaxFold(isMin, x.v, Tail(vs))
+        IF x.r = "err" THEN Err("native") ELSE IF x.r # "val" THEN x ELSE MinMaxFold(isMin, x.v, Tail(vs), IsSoft(x))
 
 TrigExact(x) == IsNaN(x) \/ IsInf(x) \/ IsZero(x)
 Builtins == {"clock","len","push","remove","delkey","keys","values","abs","sqrt","pow","sin","cos","tan","min","max","round","input"}
@@ -173,12 +187,12 @@ PureNative(name, args) ==
   CASE name = "abs"   -> Num1(LAMBDA x : Val(VNum(Abs(x))), args)
     [] name = "sqrt"  -> Num1(LAMBDA x : Val(VNum(Sqrt(x))), args)
     [] name = "round" -> Num1(LAMBDA x : Val(VNum(Round(x))), args)
-    [] name = "sin"   -> Num1(LAMBDA x : IF TrigExact(x) THEN Val(VNum(Sin(x))) ELSE Val(VApprox(Sin(x), IF Moderate(x) THEN 4 ELSE -1)), args)
-    [] name = "cos"   -> Num1(LAMBDA x : IF TrigExact(x) THEN Val(VNum(Cos(x))) ELSE Val(VApprox(Cos(x), IF Moderate(x) THEN 4 ELSE -1)), args)
-    [] name = "tan"   -> Num1(LAMBDA x : IF TrigExact(x) THEN Val(VNum(Tan(x))) ELSE Val(VApprox(Tan(x), IF Moderate(x) THEN 8 ELSE -1)), args)
+    [] name = "sin"   -> Num1(LAMBDA x : IF TrigExact(x) THEN Val(VNum(Sin(x))) ELSE Val(VApprox(Sin(x), IF Moderate(x) THEN 4 ELSE -1, <<"sin", x>>)), args)
+    [] name = "cos"   -> Num1(LAMBDA x : IF TrigExact(x) THEN Val(VNum(Cos(x))) ELSE Val(VApprox(Cos(x), IF Moderate(x) THEN 4 ELSE -1, <<"cos", x>>)), args)
+    [] name = "tan"   -> Num1(LAMBDA x : IF TrigExact(x) THEN Val(VNum(Tan(x))) ELSE Val(VApprox(Tan(x), IF Moderate(x) THEN 8 ELSE -1, <<"tan", x>>)), args)
     [] name = "pow"   -> IF Len(args) # 2 THEN Err("arity")
                          ELSE LET x == NumOperand(args[1])  y == NumOperand(args[2]) IN
                               IF x.r = "err" \/ y.r = "err" THEN Err("native")
                               ELSE IF x.r # "val" THEN x ELSE IF y.r # "val" THEN y
-                              ELSE Arith("**", x.v, y.v)
+                              ELSE Carry(Arith("**", x.v, y.v), x, y)
 =============================================================================
